@@ -787,7 +787,7 @@ func (n *NEO) dropCandidateIfZero(d *dao.Simple, cache *NeoCache, pub *keys.Publ
 
 	voterKey := makeVoterKey(pub.Bytes())
 	d.DeleteStorageItem(n.ID, voterKey)
-	delete(cache.gasPerVoteCache, string(voterKey))
+	delete(cache.gasPerVoteCache, string(voterKey[1:])) // the cache is keyed by the public key without the storage prefix
 
 	return true
 }
